@@ -64,7 +64,8 @@ def all_cases(tier, double=None):
     if key in _CACHE:
         return _CACHE[key]
     if tier == "quick":
-        cases = structure_cases(9) + deviation_cases(False)
+        cases = structure_cases(9) + deviation_cases(
+            True if double is None else double)
     else:
         cases = structure_cases(11) + deviation_cases(
             True if double is None else double)
